@@ -31,6 +31,9 @@ def oracle_lines(rng, quick):
             lines.append('o_ser\t%d %d' % (lo, min(lo + 1999999, hi)))
         for ic in (32, 65, 122, 48):
             lines.append('o_sid\t-999 1223055 %d' % ic)
+    # minimized failures of earlier runs come first (LINK / SSBOND partners in residues that carry a segment id)
+    for l in REGRESSION_RT:
+        lines.append('o_rt\t' + l)
     # generated structures x write options x read options
     n = 700 if quick else 20000
     wms = [0, 0, 0, 1, 2, 4, 8, 16, 32, 64, 128, 256, 512, 1024, 2048, 2048, 2048, 2048 + 512, 4096, 4096 + 128, 4096 + 512]
@@ -47,6 +50,13 @@ def oracle_lines(rng, quick):
         for _ in range(3 if quick else 40):
             lines.append('o_file\t%s %d' % (path, rng.randrange(1, 2 ** 40)))
     return lines
+
+
+REGRESSION_RT = [
+    '503058674936 1 3 15 0 1 0', '844320534170 1 1 6 0 8 0', '373180728215 1 5 15 256 8 0', '911119249164 2 3 6 2 0 0',
+    '1043145518308 1 2 3 64 0 0',           # LINK partner with a 4-character name in a residue with a segment id
+    '955497375907 1 5 15 0 0 0', '803215209370 1 5 6 0 8 0', '388748210267 2 3 6 0 1 0',   # SSBOND partner with a segment id
+]
 
 
 def atomline_cases(rng, n):
